@@ -1173,4 +1173,86 @@ theorem gateDecomposeH_fresh (h : Heap) (a : Nat) (t : Tmpl) :
     · rw [hf.1, prefix_getElem? hp.2 j hj]
   · exact ⟨fun x hx => prefix_getElem? hp.1 x hx, fun j hj => prefix_getElem? hp.2 j hj, hseq⟩
 
+/-! ### merging never touches its inputs -/
+
+/-- the heap `h'` extends `h`: every object of `h` is still there, unchanged -/
+def Extends (h h' : Heap) : Prop := h.ops <+: h'.ops ∧ h.pls <+: h'.pls
+
+theorem gateMergeH_extends (h : Heap) (a b : Nat) : Extends h (gateMergeH false h a b).1 := by
+  unfold gateMergeH
+  have hr : Extends h h := ⟨List.prefix_refl _, List.prefix_refl _⟩
+  split
+  · split
+    · exact hr
+    · split
+      · split
+        · exact hr
+        · split
+          · exact hr
+          · split
+            · exact hr
+            · exact ⟨List.prefix_append _ _, List.prefix_append _ _⟩
+      · exact hr
+  · exact hr
+
+theorem channelMergeH_extends (h : Heap) (a b : Nat) : Extends h (channelMergeH false h a b).1 := by
+  unfold channelMergeH
+  have hr : Extends h h := ⟨List.prefix_refl _, List.prefix_refl _⟩
+  split
+  · split
+    · exact hr
+    · split
+      · split
+        · exact hr
+        · split
+          · exact hr
+          · split
+            · exact hr
+            · exact ⟨List.prefix_append _ _, List.prefix_append _ _⟩
+      · exact hr
+  · exact hr
+
+theorem extends_get {h h' : Heap} (he : Extends h h') :
+    (∀ x < h.ops.length, h'.ops[x]? = h.ops[x]?) ∧ (∀ j < h.pls.length, h'.pls[j]? = h.pls[j]?) :=
+  ⟨fun x hx => prefix_getElem? he.1 x hx, fun j hj => prefix_getElem? he.2 j hj⟩
+
+theorem gateMergeH_new (h : Heap) (a b x : Nat) (hm : (gateMergeH false h a b).2 = .merged x) :
+    x = h.ops.length ∧ ((gateMergeH false h a b).1.ops[x]?).map (·.pl) = some h.pls.length := by
+  unfold gateMergeH at hm ⊢
+  split at hm
+  · split at hm
+    · cases hm
+    · split at hm
+      · split at hm
+        · cases hm
+        · split at hm
+          · cases hm
+          · split at hm
+            · cases hm
+            · simp only [Bool.false_eq_true, if_false, MergeRes.merged.injEq] at hm
+              subst hm
+              rename_i h1 h2 _ _ _ _ _ _ _ _ _
+              simp_all
+      · cases hm
+  · cases hm
+
+theorem channelMergeH_new (h : Heap) (a b x : Nat) (hm : (channelMergeH false h a b).2 = .merged x) :
+    x = h.ops.length ∧ ((channelMergeH false h a b).1.ops[x]?).map (·.pl) = some h.pls.length := by
+  unfold channelMergeH at hm ⊢
+  split at hm
+  · split at hm
+    · cases hm
+    · split at hm
+      · split at hm
+        · cases hm
+        · split at hm
+          · cases hm
+          · split at hm
+            · cases hm
+            · simp only [Bool.false_eq_true, if_false, MergeRes.merged.injEq] at hm
+              subst hm
+              simp_all
+      · cases hm
+  · cases hm
+
 end SFV.Eng
